@@ -9,7 +9,7 @@ import pandas as pd
 from .. import proto
 from ..core import Check, Problem, register
 from . import c06
-from .c06 import (MOMENTS, LOSS_RANGES, costs_ok, fl, gen_bounds, gen_dataset, history_tag, index_keys, make_inputs,
+from .c06 import (MOMENTS, LOSS_RANGES, costs_ok, demote_harness, fl, gen_bounds, gen_dataset, history_tag, index_keys, make_inputs,
                   make_moment, make_predictor, previous_life, spec_config, spec_err, spec_loss, spec_order, spec_parity,
                   strata_stats, with_history)
 
@@ -544,6 +544,10 @@ class CHECK(Check):
 
     # ------------------------------------------------------------------ judging
     def judge(self, case, o, mo):
+        return demote_harness(self._judge(case, o, mo), getattr(self, "module", None) or "FairModel.Properties.C07",
+                              "C07.generated-model-vs-spec")
+
+    def _judge(self, case, o, mo):
         if "crash" in o:
             return [Problem("correspondence", f"implementation crashed: {o}", "impl-total")]
         model = None
